@@ -10,12 +10,21 @@ import (
 )
 
 func init() {
+	var trkHistOnce func(a []Val) Val
 	register("trk.hist", func(a []Val) Val {
+		// the tracker takes SegmentationDescriptor VALUES OF THE INTERFACE: in the second run every other descriptor of the
+		// pool is the caller's own implementation forwarding to the library's (foreign.go); the observations must agree
+		return foreignTwin("trk.hist (tracker fed caller-written SegmentationDescriptor values)", func() Val { return trkHistOnce(a) })
+	})
+	trkHistOnce = func(a []Val) Val {
 		poolV, script := a[0].L, a[1].L
 		pool := make([]scte35.SegmentationDescriptor, len(poolV))
 		idOf := map[scte35.SegmentationDescriptor]int{}
 		for i := range poolV {
 			pool[i] = mkDesc(specOfVal(poolV[i]))
+			if i%2 == 1 {
+				pool[i] = maybeForeignSegDesc(pool[i])
+			}
 			idOf[pool[i]] = i
 		}
 		ids := func(l []scte35.SegmentationDescriptor) Val {
@@ -103,7 +112,7 @@ func init() {
 		// the tracker stays alive while OTHER trackers process descriptors (stable.go decoy phase)
 		keepView("Open() of the tracker after the history", func() string { return valTextFull(ids(st.Open())) })
 		return VL(out...)
-	})
+	}
 }
 
 func sprint(e interface{}) string {
